@@ -66,6 +66,49 @@ def regen_inherit_prio(ctx):
 
 GENERATORS = GENERATORS + [regen_inherit_prio]
 
+
+# --- tie of kind (1) (task W28): Gen/GetComparam.lean is regenerated from HierarchyElement.get_comparam of the current source by the
+# Python->Lean translator and proved equal to the hand-written getComparamIn (Proofs/GetComparamGenEq.lean)
+LEAN_TARGETS = LEAN_TARGETS + ["OdxVerif.Props.C15GenLookup"]
+THEOREMS = THEOREMS + ["OdxVerif.Comparam." + t for t in ["gen_getComparam_eq", "C15_gen_get_comparam", "C15_gen_protocol_object",
+                                                          "C15_gen_protocol_first", "C15_gen_protocol_first_specific"]]
+TRUSTED = TRUSTED + ["translator harness/extract/py2lean.py + primitives lean/OdxVerif/Model/PyRt.lean for HierarchyElement.get_comparam (self.comparam_refs = "
+                     "the list `refs`, instantiated with the model's `available L`; the argument `protocol: Optional[Union[str, Protocol]]` = Option ProtoArg "
+                     "(a name or a Protocol object of which only short_name is read; isinstance(protocol, Protocol) splits it, the else branch reads it as "
+                     "Optional[str]); cp.short_name / cp.protocol_snref = Inst.name / Inst.proto; warnings.warn has no effect on the result; the "
+                     "function-local import of Protocol succeeds)"]
+
+
+def regen_get_comparam(ctx):
+    """Gen/GetComparam.lean from the current source; Unsupported (source left the translator's subset) = broken obligation"""
+    from extract import py2lean
+    py2lean.regenerate_get_comparam(common.REPO, common.VERIF)
+
+
+GENERATORS = GENERATORS + [regen_get_comparam]
+
+
+# --- tie of kind (1) (task W28): Gen/ComparamAccessors.lean — the five accessors of the shape get_comparam / get_value / int() are
+# regenerated from the current source and proved equal to the model's viaValue … intRes (Proofs/ComparamAccessorsGenEq.lean)
+LEAN_TARGETS = LEAN_TARGETS + ["OdxVerif.Props.C15GenAccessors"]
+THEOREMS = THEOREMS + ["OdxVerif.Comparam." + t for t in ["gen_canFuncReqId_eq", "gen_doipLogicalGatewayAddress_eq", "gen_doipLogicalTesterAddress_eq",
+                                                          "gen_doipLogicalFunctionalAddress_eq", "gen_doipRoutingActivationType_eq",
+                                                          "C15_gen_accessors_int", "C15_gen_accessors_spec",
+                                                          "gen_canBaudrate_eq", "C15_gen_can_baudrate"]]
+TRUSTED = TRUSTED + ["translator + PyRt primitives for get_can_func_req_id, get_doip_logical_gateway_address, get_doip_logical_tester_address, "
+                     "get_doip_logical_functional_address, get_doip_routing_activation_type, get_can_baudrate (isinstance(com_param.value, str) = CVal.isStr; self.get_comparam = the generated getComparamE; "
+                     "com_param.get_value() = the hand-written getValue, int(str) = the hand-written pyInt with ValueError as class foreign: both "
+                     "stay tied to the code by the correspondence check only; odxassert(isinstance(result, str)) is a typing assertion)"]
+
+
+def regen_accessors(ctx):
+    """Gen/ComparamAccessors.lean from the current source; Unsupported (source left the translator's subset) = broken obligation"""
+    from extract import py2lean
+    py2lean.regenerate_accessors(common.REPO, common.VERIF)
+
+
+GENERATORS = GENERATORS + [regen_accessors]
+
 # ----------------------------------------------------------------------------- generators
 
 INTS = ["0", "1", "8", "123", "2016", "500000", "4294967295", " 42 ", "+7", "-3", "1_000", "007", "\t9\n", "0x10", "12a", "1.5",
